@@ -611,7 +611,10 @@ class TrajectoryStore:
                     fs = FieldSet.from_registry(fs_name)
                     for f, metadata in fs.fields.items():
                         if Dimension.SPECIES in metadata.dimensions:
-                            species.update(getattr(associated_data, f).keys())
+                            # (An optional field may be left unset.)
+                            value = getattr(associated_data, f)
+                            if value is not None:
+                                species.update(value.keys())
 
                 nc_info = self._create_nc_file(
                     associated_file,
